@@ -1668,7 +1668,11 @@ def run(tier="quick", seed=0) -> dict:
         "KeyboardInterrupt at invocation index 0..6 of %s; pty: %d groups of 6 escape sequences (arrows, function keys, "
         "modified arrows, SS3, ESC-prefixed key, X10 mouse reports) split over two reads at byte offsets 1..5, the loop "
         "kept running %.1f s after them, a lone ESC; %d start/stop histories of the screen alone (alternate buffer x "
-        "paste x focus x mouse never/before/after/on-off x output to pty/pipe, restarts)"
+        "paste x focus x mouse never/before/after/on-off x output to pty/pipe, restarts); the display stopped and started "
+        "again INSIDE run() (unhandled-input handler does screen.stop(); screen.start() on key 'S' - alone, last or first "
+        "of its batch; job-control SIGTSTP/SIGCONT on the pty under SIG_DFL [real stop, continued by a helper process] / "
+        "SIG_IGN / an application handler), up to %d restarts per session followed by keys, mouse reports, a resize, "
+        "alarms, watch_pipe data, every loop x all %d pty configurations x scripted screens, exceptions injected after restarts"
         % (
             len(cases),
             ",".join(loops),
@@ -1679,6 +1683,8 @@ def run(tier="quick", seed=0) -> dict:
             len(SPLITS),
             LATE_S,
             len(direct_cases(tier == "quick")),
+            sum(1 for st in make_session(RESTART_ORDERS[0], cycles=RESTART_CYCLES) if st[0] == "suspend" or (st[0] == "keys" and "S" in st[1])),
+            len(PTY_CFGS),
         )
     )
     checks = {name: Check(name, rule, exhaustive=True, bound=bound) for name, rule in CHECKS.items()}
